@@ -370,7 +370,7 @@ def solve(ob, use_cvc5=True, fast=False):
             late = min(Z3_TIMEOUT_MS, 10_000)      # (the late stages share what is left of a bounded budget: an undecided obligation stays cheap)
             r, s = _prove(list(ob.conds), ob.goal, level=1, timeout_ms=late, seeds=(0,))
             if r == z3.unknown:  # ... the plain query once more, with a larger budget
-                r, s = _check(list(ob.conds) + [z3.Not(ob.goal)], Z3_TIMEOUT_MS, seeds=(0,))
+                r, s = _check(list(ob.conds) + [z3.Not(ob.goal)], min(Z3_TIMEOUT_MS, 30_000), seeds=(0,))
             if r == z3.unknown:  # ... plus the hypotheses instantiated at the sequence positions and dictionary keys of the path (two rounds)
                 r, s = _prove(list(ob.conds), ob.goal, level=2, timeout_ms=late, seeds=(0,))
             if r == z3.unknown:  # ... plus instantiated definitions of the recursive specification functions that occur
